@@ -196,9 +196,12 @@ func (v *inputFieldDefaultInjectionVisitor) processObjectOrListInput(fieldType i
 // default values from the schema if necessary, using v.processObjectOrListInput() and v.recursiveInjectInputFields().
 // If any changes are made, it returns (newValue, true), otherwise it returns (defaultValue, false).
 func (v *inputFieldDefaultInjectionVisitor) jsonWalker(fieldType int, defaultValue []byte, node *ast.Node, typeDoc *ast.Document, finalVal *[]byte, finalValueReplaced *bool) func(value []byte, dataType jsonparser.ValueType, offset int, err error) {
-	i := 0
+	next := 0
 	listOfList := typeDoc.TypeIsList(typeDoc.Types[fieldType].OfType)
 	return func(value []byte, dataType jsonparser.ValueType, offset int, err error) {
+		// every visited item occupies an index, whether or not anything is injected into it
+		i := next
+		next++
 		if err != nil {
 			return
 		}
@@ -228,12 +231,7 @@ func (v *inputFieldDefaultInjectionVisitor) jsonWalker(fieldType int, defaultVal
 				}
 				*finalValueReplaced = true
 			}
-		} else {
-			// nothing to inject into this item (null, scalar, mismatching kind), but it still occupies an index
-			i++
-			return
 		}
-		i++
 	}
 
 }
